@@ -3,6 +3,7 @@ package main
 import (
 	"errors"
 	"fmt"
+	"runtime"
 	"strings"
 	"sync/atomic"
 
@@ -235,10 +236,94 @@ func c06GenFrag(r *Rng) c06Frag {
 	}
 }
 
+// c06ParkWriter: the caller's writer; its k-th Write waits (after having taken a copy of the bytes it was given at the
+// time of the call: a slow network connection reads them while other requests are served).
+type c06ParkWriter struct {
+	got     []byte
+	calls   int
+	parkAt  int
+	entered chan struct{}
+	release chan struct{}
+	late    []byte // the bytes of the parked call as they are when the writer finally consumes them
+}
+
+func (w *c06ParkWriter) Write(p []byte) (int, error) {
+	w.calls++
+	if w.calls == w.parkAt {
+		close(w.entered)
+		<-w.release
+		w.late = append([]byte(nil), p...) // consumed only now: p is the writer's until Write returns
+	}
+	w.got = append(w.got, p...)
+	return len(p), nil
+}
+
+// c06SlowWriter: one rendering is streamed (ExecuteWriterUnbuffered) into a writer that is slow to take a chunk; while
+// it waits, other templates with literal texts of their own are rendered on the same OS thread. Every rendering
+// delivers exactly its own texts.
+func c06SlowWriter(c *C) {
+	r := c.R
+	old := runtime.GOMAXPROCS(1)
+	defer runtime.GOMAXPROCS(old)
+	t1, t2, t3 := c06RandText(r, 40)+"A", c06RandText(r, 200)+"B", c06RandText(r, 40)+"C"
+	o1, o2 := strings.Repeat(r.Pick([]string{"x", "OTHER ", "\x00", "é"}), 1+r.Intn(300)), c06RandText(r, 300)+"D"
+	for _, s := range []*string{&t1, &t2, &t3, &o1, &o2} {
+		*s = strings.TrimRight(*s, "{")
+		if *s == "" {
+			*s = "z"
+		}
+	}
+	files := map[string]string{"/main.tpl": t1 + "{% include \"/inc.tpl\" %}" + t3 + "{% include nm %}", "/inc.tpl": t2, "/o.tpl": "{% include \"/oinc.tpl\" %}" + o1 + "{% include onm %}{% include \"/oinc.tpl\" %}", "/oinc.tpl": o2}
+	set, _ := newSet(files)
+	tplA, errA := set.FromFile("/main.tpl")
+	tplB, errB := set.FromFile("/o.tpl")
+	if errA != nil || errB != nil {
+		c.Fail("identity", D{"files": files, "compile_err": errStr(errA) + errStr(errB)})
+		return
+	}
+	wantA, wantB := t1+t2+t3+t2, o2+o1+o2+o2
+	w := &c06ParkWriter{parkAt: 1 + r.Intn(4), entered: make(chan struct{}), release: make(chan struct{})}
+	done := make(chan error, 1)
+	go func() { done <- tplA.ExecuteWriterUnbuffered(pongo2.Context{"nm": "/inc.tpl"}, w) }()
+	parked := true
+	select {
+	case <-w.entered:
+	case e := <-done: // fewer Write calls than parkAt: nothing to overlap with, the output is still checked
+		parked = false
+		done <- e
+	}
+	for k := 0; k < 3 && parked; k++ {
+		out, xerr := c01Exec(tplB, pongo2.Context{"onm": "/oinc.tpl"}, r.Intn(4))
+		c.Eval(1)
+		if xerr != nil || out != wantB {
+			close(w.release)
+			<-done
+			c.Fail("identity", D{"files": files, "rendered": "/o.tpl while a streamed rendering of /main.tpl waited in its writer", "output": q(out), "expected": q(wantB), "error": errStr(xerr)})
+			return
+		}
+	}
+	if parked {
+		close(w.release)
+	}
+	xerr := <-done
+	c.Eval(1)
+	if xerr != nil || string(w.got) != wantA {
+		c.Fail("identity", D{"files": files, "rendered": "/main.tpl through ExecuteWriterUnbuffered into a writer whose Write call number " + fmt.Sprint(w.parkAt) + " waited while /o.tpl was rendered three times", "writer_received": q(string(w.got)), "expected": q(wantA),
+			"bytes_of_the_waiting_call_when_consumed": q(string(w.late)), "error": errStr(xerr), "why": "literal text is copied byte for byte; the bytes handed to the writer are the writer's until Write returns"})
+		return
+	}
+	c.Cover(fmt.Sprintf("slow_writer_parked_%v", parked))
+	c.Nontrivial("slowwriter:" + t2)
+}
+
 func c06Run(c *C) {
 	nb := c06EnumBatches(c.Tier)
 	if c.Idx < nb {
 		c06RunEnum(c)
+		return
+	}
+	if (c.Idx-nb)%50 == 17 {
+		c06SlowWriter(c)
 		return
 	}
 	r := c.R
